@@ -98,6 +98,8 @@ impl<'ast, 'x> Visit<'ast> for Interacts<'x> {
 fn iterable(e: &Expr) -> R<(&Expr, bool, Option<&syn::ExprClosure>)> {
     match e {
         Expr::Paren(p) => iterable(&p.expr),
+        // flexprog.rs: `.rev()` is peeled off by `iterable_rev`
+
         Expr::MethodCall(m) if m.method == "iter_mut" && m.args.is_empty() => Ok((&m.receiver, true, None)),
         Expr::MethodCall(m) if m.method == "iter" && m.args.is_empty() => Ok((&m.receiver, false, None)),
         Expr::MethodCall(m) if m.method == "filter" && m.args.len() == 1 => {
@@ -111,6 +113,15 @@ fn iterable(e: &Expr) -> R<(&Expr, bool, Option<&syn::ExprClosure>)> {
             }
         }
         _ => Err(format!("`for` over `{}` (only `P.iter_mut()`, `P.iter()`, `P.iter().filter(|x| p)` are in the fragment)", quote::quote!(#e))),
+    }
+}
+
+/// `P.iter_mut().rev()` / `P.iter().rev()`: the same loop over the reversed list (the updated list is reversed back)
+fn iterable_rev(e: &Expr) -> (&Expr, bool) {
+    match e {
+        Expr::Paren(p) => iterable_rev(&p.expr),
+        Expr::MethodCall(m) if m.method == "rev" && m.args.is_empty() => (&m.receiver, true),
+        _ => (e, false),
     }
 }
 
@@ -724,6 +735,7 @@ impl<'a> Ctx<'a> {
             _ => None,
         };
         let dummy: Expr = syn::parse_str("()").unwrap();
+        let mut is_rev = false;
         let (place, mutable, filter, pl, elem) = match range_end {
             Some(end) => {
                 let (n, nt) = self.expr(end, &Ty::Nat)?;
@@ -733,8 +745,14 @@ impl<'a> Ctx<'a> {
                 (&dummy, false, None, L::app("List.range", vec![n]), Ty::Nat)
             }
             None => {
-                let (place, mutable, filter) = iterable(&f.expr)?;
+                let (it_e, rev) = iterable_rev(&f.expr);
+                is_rev = rev;
+                let (place, mutable, filter) = iterable(it_e)?;
+                if rev && filter.is_some() {
+                    return Err("`for` over a reversed filtered iterator".into());
+                }
                 let (pl, plt) = self.expr(place, &Ty::Unknown)?;
+                let pl = if rev { L::app("List.reverse", vec![pl]) } else { pl };
                 let elem = match plt {
                     Ty::List(t) => *t,
                     t => return Err(format!("`for` over a value of type {:?}", t)),
@@ -832,7 +850,9 @@ impl<'a> Ctx<'a> {
         let mut binds: Vec<(String, L)> = vec![];
         let res_ty = if writes_var { Ty::Tuple(vec![Ty::List(Box::new(elem.clone())), st_ty.clone()]) } else { st_ty.clone() };
         let st_l = if writes_var {
-            let (pn, pv) = self.assign_into(place, L::Field(Box::new(L::A(r.clone())), "1".into()))?;
+            let upd = L::Field(Box::new(L::A(r.clone())), "1".into());
+            let upd = if is_rev { L::app("List.reverse", vec![upd]) } else { upd };
+            let (pn, pv) = self.assign_into(place, upd)?;
             binds.push((pn, pv));
             let s = self.fresh_name("s");
             binds.push((s.clone(), L::Field(Box::new(L::A(r.clone())), "2".into())));
